@@ -313,6 +313,13 @@ func observeCmd(args []string) error {
 		return err
 	}
 	defer os.RemoveAll(root)
+	xf, err := os.Create(args[2] + ".extra")
+	if err != nil {
+		return err
+	}
+	defer xf.Close()
+	extraW = bufio.NewWriterSize(xf, 1<<20)
+	defer extraW.Flush()
 	switch args[0] {
 	case "crc":
 		return scanLines(args[1], func(fs []string) error {
@@ -336,17 +343,23 @@ func observeCmd(args []string) error {
 	return fmt.Errorf("unknown mode %s", args[0])
 }
 
+var extraW *bufio.Writer
+
 func observeWal(cases string, ow *bufio.Writer, root string) error {
+	curWid := ""
+	dirWid := map[string]string{}
 	wal.SegmentSizeBytes = 4096 // only the size of the background-preallocated next segment
 	dirs := map[string][]fileEnt{}
 	dirNops := map[string]int{}
 	return scanLines(cases, func(fs []string) error {
 		switch fs[0] {
 		case "WAL":
+			curWid = fs[1]
 			if v, err := strconv.ParseInt(fs[2], 10, 64); err == nil {
 				wal.SegmentSizeBytes = v
 			}
 		case "DIR":
+			dirWid[fs[1]] = fs[2]
 			dirs[fs[1]] = nil
 			n, _ := strconv.Atoi(fs[3])
 			dirNops[fs[1]] = n
@@ -379,6 +392,11 @@ func observeWal(cases string, ow *bufio.Writer, root string) error {
 				return err
 			}
 			fmt.Fprintf(ow, "R %s %s\n", fs[1], line)
+		case "L":
+			_ = curWid
+			if err := observeTwoLife(root, ow, extraW, dirWid[fs[2]], fs, dirs[fs[2]]); err != nil {
+				return err
+			}
 		case "T":
 			// truncation image: file <fidx> of the directory ends after <size> bytes (a tail that
 			// was being extended past its allocation, or the old tail between Truncate and sync in cut)
